@@ -9,6 +9,8 @@ OBLIGATIONS = [
      "statement": "non-idempotent method: every attempt but the last ended in HttpRequestNotSentError without calling sendSync (all budgets, scripts, client states)"},
     {"id": "C17_R1_count", "theorem": "Iora.C17.R1_send_count", "kind": "proved",
      "statement": "non-idempotent method: at most one attempt reaches sendSync"},
+    {"id": "C17_R1_trace", "theorem": "Iora.C17.R1_trace", "kind": "proved",
+     "statement": "non-idempotent method: engine->send is called at most once in the whole trace of the request"},
     {"id": "C17_R2", "theorem": "Iora.C17.R2_budget", "kind": "proved",
      "statement": "every method: attempts <= max(budget,0)+1; the model's fuel is never the reason the loop stops"},
     {"id": "C17_R3", "theorem": "Iora.C17.R3_framing_not_retried", "kind": "proved",
@@ -17,6 +19,14 @@ OBLIGATIONS = [
      "statement": "the caller gets the outcome of the last attempt"},
     {"id": "C17_R3_outcomes", "theorem": "Iora.C17.R3_framing_outcomes", "kind": "proved",
      "statement": "malformed message / response cap / sync-buffer overflow after the request was sent end the attempt in HttpFramingError"},
+    {"id": "C17_R4a", "theorem": "Iora.C17.R4_failure_evicts", "kind": "proved",
+     "statement": "an attempt that held the lease and failed (any failure) leaves no cached connection for the host"},
+    {"id": "C17_R4b", "theorem": "Iora.C17.R4_reuse_only_if", "kind": "proved",
+     "statement": "a connection stays cached only if reuse is configured, no close signal, no surplus, not close-delimited, async switch ok"},
+    {"id": "C17_R4b2", "theorem": "Iora.C17.R4_surplus_or_close_delimited_never_kept", "kind": "proved",
+     "statement": "a kept connection's response was completed by frameResponse without surplus (never by peer close)"},
+    {"id": "C17_R4c", "theorem": "Iora.C17.R4_sequences", "kind": "proved",
+     "statement": "every sequence of requests: no session used after close; <=1 cached connection per host:port; cached sessions never closed; no lease left held"},
     {"id": "C17_R5", "theorem": "Iora.C17.R5_exact", "kind": "proved",
      "statement": "isIdempotentMethod = exact membership in {GET,HEAD,PUT,DELETE,OPTIONS,TRACE}"},
     {"id": "C17_R5_case", "theorem": "Iora.C17.R5_case_sensitive", "kind": "proved",
@@ -398,7 +408,7 @@ def run(ctx: Ctx):
     if ok_build:
         ctx.audit(MODULES, OBLIGATIONS)
         if not quick:
-            ctx.leanchecker(MODULES + ["IoraModel.Lemmas.HttpRetry", "IoraModel.Model.HttpRetry"])
+            ctx.leanchecker(MODULES + ["IoraModel.Lemmas.HttpRetry", "IoraModel.Lemmas.HttpRetryCache", "IoraModel.Model.HttpRetry"])
     else:
         ctx.cov["obligations"] = len(OBLIGATIONS)
     hb = ctx.build_harness("harness/c17_httpretry.cpp", sanitize=True)
